@@ -78,6 +78,10 @@ def mutex_prop(pid, pbit, fair_only=False):
         H(MUTEX, "witness_hist_n5", "witness", replay=("mutex_hist_noop", 2), mask=PALL, witness_bit=1, est_s=100,
           bounds="witness twin: N=5, must reach 'two pending, unlock wakes one'"),
     ]
+    if pid == "C03":
+        quick.append(H(MUTEX, "waker_identity_c03", "hold", replay=("mutex_waker_identity", 0), mask=P(3), est_s=10, est_gb=1,
+                       bounds="straight line: a waiting lock future is re-polled with a waker that has the SAME data pointer and another vtable "
+                              "(will_wake false); the unlock must wake through the latest one; both fairness modes"))
     thorough = quick + [
         H(MUTEX, "hist_%s_n7" % tag, "hold", replay=("mutex_hist_noop", cfg), mask=P(pbit), est_s=900,
           timeout=3000, bounds="E-HIST: K=3, N=7"),
@@ -145,6 +149,10 @@ def sem_prop(pid, pbit, modes, step_names, extra_quick=(), extra_thorough=()):
         hj("p3_n6", 3, 6, thorough, est=1200)
         hj("p2_n5", 2, 5, thorough, lock="check", est=600, suffix="_check")
         hj("p3_n7", 3, 7, thorough, est=3000, bonus=True)
+    if pid == "C06":
+        quick.append(H(SEM, "waker_identity_c06", "hold", replay=("sem_waker_identity", 0), mask=P(6), est_s=10, est_gb=1,
+                       bounds="straight line: a waiting acquire future is re-polled with a waker that has the same data pointer and another vtable; "
+                              "release must wake through the latest one; both fairness modes"))
     if pid in ("C05", "C06"):
         quick.append(H(SEMSH, "scenario_%s" % tag, "hold", replay=("semsh_scenario", 0), mask=P(pbit), est_s=160, est_gb=10, mem_gb=24, timeout=1500,
                        bounds="SHARED (Arc) semaphore, straight-line scenario: fairness, initial permits 0..2, request 1..2 symbolic; acquire future "
@@ -249,6 +257,9 @@ def c19_prop():
               H(RING, "zst_fixed_c2", "hold", replay=("ring_zst_fixed", 2), est_s=20, bounds="FixedHeapBuf of zero-sized elements, capacity 2, 4 operations"),
               H(RING, "zst_growing_c2", "hold", replay=("ring_zst_growing", 2), est_s=20, bounds="GrowingHeapBuf of zero-sized elements, capacity 2, 4 operations"),
               H(RING, "zst_array_c2", "hold", replay=("ring_zst_array", 2), est_s=20, bounds="ArrayBuf of zero-sized elements, capacity 2, 4 operations")]
+    quick += [H(RING, "next_idx_%d" % n, "hold", replay=("ring_next_idx", n), est_s=10,
+                bounds="ArrayBuf over a user-defined RealArray of %d elements (> 64, not a power of two): next_idx(i) = (i+1) mod capacity for "
+                       "EVERY i, two pushes and pops across an arbitrary ring position" % n) for n in (65, 96, 100)]
     for j in quick:
         j.setdefault("mask", P(19))   # the ring interpreter arms the C18 allocation counters only under P18
     quick.append(H(RING, "array_witness_c2", "witness", replay=("ring_hist_array", 2), mask=P(19), witness_bit=5, est_s=20,
@@ -419,6 +430,10 @@ def c15_prop():
         H(TIMER, "hist_c15_k2_wide_a3", "hold", replay=("timer_hist_noop", 3 | (2 << 8) | (1 << 11) | (1 << 12)), mask=P(15), est_s=200, est_gb=3, timeout=1500,
           bounds="E-HIST timer 'wide': K=2 slots, deadlines and clock steps over the FULL u64 range, 3 operations of {poll A|B, drop, advance}; "
                  "next_expiration() = smallest registered deadline after every operation, completion never early"),
+        H(TIMER, "facade_c15", "hold", replay=("timer_facade", 0), mask=P(15), est_s=70, est_gb=2.5,
+          bounds="thread-safe Timer facade (TimerFuture over GenericTimerService<CheckLock>), one timer, straight line: register, optional re-poll "
+                 "with a waker that differs only in the vtable, clock passes the deadline, check_expirations() with or without modelled lock "
+                 "contention, re-poll"),
         H(TIMER, "witness_drop_k3_a4", "witness", replay=("timer_hist_noop", 4 | (1 << 11)), mask=PALL, witness_bit=4, est_s=300, est_gb=4, timeout=1500,
           bounds="witness twin: a registered timer is dropped while another stays registered"),
     ]
@@ -607,6 +622,8 @@ def c17_prop():
         mpmc_hist("c17", 17, 0, "ca", 5, 5),
         mpmc_hist("c17", 17, 1, "ca", 3, 5),
         H(MPMC, "step_c17_c2_dc", "step", est_s=60, est_gb=1.5, bounds="E-STEP mpmc capacity 2 drop/cancel: cancel() terminates the send future in every state"),
+        H(TIMER, "facade_c17", "hold", replay=("timer_facade", 0), mask=P(17), est_s=60, est_gb=2.5,
+          bounds="thread-safe Timer facade: is_terminated() is false until Ready was yielded - also between check_expirations() and the re-poll"),
         H(LIFE, "shared_mpmc_min_c17", "hold", replay=("shared_mpmc_min", 0), mask=P(17), est_s=280, est_gb=20, mem_gb=30, timeout=1500,
           bounds="shared (Arc) mpmc send/receive futures: is_terminated() over the straight-line scenario (parked sender served / closed)"),
         H(SEMSH, "scenario_c17", "hold", replay=("semsh_scenario", 0), mask=P(17), est_s=160, est_gb=10, mem_gb=24, timeout=1500,
@@ -652,6 +669,8 @@ def c18_prop():
         H(MPMC, "hist_c18_c2_tr_p0_n4", "hold", replay=("mpmc_hist_noop", mpmc_cfg(2, "tr", 0)), mask=P(18), est_s=300, est_gb=4, bounds="E-HIST mpmc capacity 2", **st),
         H(LIFE, "life_c18_oneshot_bc_n3", "hold", replay=("life_oneshot_bc", 0), mask=P(18), est_s=300, est_gb=8, timeout=1500,
           bounds="shared oneshot-broadcast: handle clone/drop and polling after construction", **st),
+        H(LIFE, "shared_stream_min_c18", "hold", replay=("shared_stream_min", 0), mask=P(18), est_s=170, est_gb=14, mem_gb=26, timeout=1500,
+          bounds="SharedStream over a shared ArrayBuf channel: two poll_next calls (item / pending / end) never reach the allocator", **st),
         H(MPMC, "clear_noalloc_c18", "hold", replay=("mpmc_clear_noalloc", 0), mask=P(18) | P(8), est_s=30, est_gb=2,
           bounds="ChannelState::clear() (run by Drop of the last shared receiver) on a FixedHeapBuf channel with 0-2 buffered values, open or closed: "
                  "every value dropped once, allocator never reached (function level)", **st),
@@ -698,12 +717,20 @@ def _fix_life_estimates():
                     _j["mem_gb"] = max(float(_j.get("mem_gb", 0)), 30)
 PROPS["C08"] = mpmc_prop("C08", 8, [(0, "sr", 0, 4), (1, "sr", 0, 4), (1, "tr", 0, 4), (0, "ca", 0, 4), (1, "ca", 0, 4), (1, "cl", 3, 5), (0, "cl", 3, 5), (2, "tr", 0, 4)],
                         extra_quick=MPMC_WITNESSES[:1] + [
+                            H(MPMC, "zst_array_c2_c08", "hold", replay=("mpmc_zst_array", 2), mask=P(8), est_s=15, est_gb=1,
+                              bounds="zero-sized payload WITH a Drop impl over ArrayBuf capacity 2: values still buffered are dropped exactly once with the channel"),
+                            H(MPMC, "zst_fixedheap_c2_c08", "hold", replay=("mpmc_zst_fixedheap", 2), mask=P(8), est_s=15, est_gb=1,
+                              bounds="same over FixedHeapBuf"),
                             H(LIFE, "life_mpmc_discard_c08", "hold", replay=("life_mpmc_discard", 0), mask=P(8), est_s=40,
                               bounds="shared mpmc (public API): capacity 2, 0-2 buffered values, optional receiver clone, optional explicit close, receiver "
                                      "handles dropped in a symbolic order: buffered values survive while a receiver handle is alive")])
 PROPS["C09"] = mpmc_prop("C09", 9, [(0, "sr", 0, 4), (1, "sr", 0, 4), (1, "tr", 0, 4), (2, "tr", 0, 4), (0, "sr", 5, 5), (1, "sr", 3, 5), (2, "sr", 3, 5), (1, "ca", 0, 4),
                                     (1, "sr", 6, 5), (1, "tr", 6, 5), (2, "tr", 6, 6)],
                         extra_quick=MPMC_WITNESSES[:1] + [
+                            H(MPMC, "zst_growing_c0", "hold", replay=("mpmc_zst_growing", 0), mask=P(9), est_s=15, est_gb=1,
+                              bounds="GrowingHeapBuf (the buffer of the shared std channels) with capacity 0: rendezvous - a send never completes without a receiver"),
+                            H(MPMC, "zst_growing_c2", "hold", replay=("mpmc_zst_growing", 2), mask=P(9), est_s=15, est_gb=1,
+                              bounds="GrowingHeapBuf limit 2: capacity bound over 4 try_* operations + one send future"),
                             H(MPMC, "zst_fixedheap_c2", "hold", replay=("mpmc_zst_fixedheap", 2), mask=P(9), est_s=15, est_gb=1,
                               bounds="capacity bound with a ZERO-SIZED payload over FixedHeapBuf (VecDeque reports capacity usize::MAX): capacity 2, "
                                      "4 try_send/try_receive operations + one send future"),
@@ -712,7 +739,7 @@ PROPS["C09"] = mpmc_prop("C09", 9, [(0, "sr", 0, 4), (1, "sr", 0, 4), (1, "tr", 
                             H(MPMC, "zst_array_c2", "hold", replay=("mpmc_zst_array", 2), mask=P(9), est_s=15, est_gb=1,
                               bounds="zero-sized payload over ArrayBuf, capacity 2")])
 PROPS["C10"] = mpmc_prop("C10", 10, [(0, "sr", 0, 4), (1, "sr", 0, 4), (0, "sr", 5, 5), (1, "sr", 4, 5), (1, "cl", 3, 5), (0, "cl", 3, 5), (2, "sr", 4, 5), (1, "tr", 0, 4),
-                                     (1, "cl", 4, 5)],
+                                     (1, "cl", 4, 5), (2, "tr", 4, 5)],
                         extra_quick=MPMC_WITNESSES)
 PROPS["C11"] = c11_prop()
 PROPS["C12"] = recv_chan_prop("C12", 12, [(ONESHOT, "oneshot", "oneshot", "witness_second_receive_n6", 3),
@@ -727,6 +754,10 @@ PROPS["C12"] = recv_chan_prop("C12", 12, [(ONESHOT, "oneshot", "oneshot", "witne
 PROPS["C13"] = recv_chan_prop("C13", 13, [(STATE, "state", "state-broadcast", "witness_follower_n6", 3)],
                               "GenericStateBroadcastChannel", STATE_FUNCS,
                               extra_quick=[
+                                  H(STATE, "contended_c13", "hold", replay=("state_contended", 0), mask=P(13), est_s=10, est_gb=1,
+                                    bounds="thread-safe flavour (CheckLock) under modelled contention (a try_lock on the channel lock would fail once; "
+                                           "lock() just waits): a poll still delivers a newer state or registers, the next send/close wakes it through "
+                                           "its latest waker (wakers that differ only in the vtable)"),
                                   H(LIFE, "life_state_n3", "hold", replay=("life_state", 0), mask=P(11), est_s=200, est_gb=6,
                                     bounds="shared state broadcast (Arc handles): a waiting receiver is woken and resolves to None exactly when the last handle "
                                            "of a side is dropped; 2+2 handle slots, 3 clone/drop operations")])
@@ -1029,3 +1060,9 @@ DECODERS["shared_mpmc_min"] = lambda cfg, script: ["shared channel(1): pre-fille
 DECODERS["mpmc_handles"] = lambda cfg, script: [l.replace("a receive future is registered (pending) as observer", "no futures").replace("; re-poll the observer", "; probe closedness with try_receive/try_send") for l in decode_life(cfg, script)]
 
 _fix_life_estimates()
+DECODERS["mutex_waker_identity"] = decode_raw
+DECODERS["sem_waker_identity"] = decode_raw
+DECODERS["state_contended"] = decode_raw
+DECODERS["timer_facade"] = decode_raw
+DECODERS["ring_next_idx"] = lambda cfg, script: ["ArrayBuf over a user-defined RealArray of %d elements; ring position i = %s" % (cfg, script[0] if script else "?")]
+DECODERS["mpmc_zst_growing"] = decode_mpmc_zst
